@@ -183,6 +183,50 @@ theorem c12_node_bytes_roundtrip (n : Node) (h : NodeOk n) :
   rw [nodeOfBytes_encNode q hok]
   simp only [pbToNode, q, mapRes_back _ hp1, mapRes_back _ hp2, toInt32_hash n.hash h.hash]
 
+def pbNodeOf (n : Node) : PbNode :=
+  { id := n.id, type := n.type, hash := toInt32 n.hash, parent := n.parent,
+    points := n.points.map pbOf, edgePoints := n.edgePoints.map pbOf }
+
+theorem toPbNode_ok (n : Node) (h : NodeOk n) : toPbNode n = .ok (pbNodeOf n) := by
+  have hp1 : ∀ p ∈ n.points, PointOk p := fun p hp => h.points p (by simp [hp])
+  have hp2 : ∀ p ∈ n.edgePoints, PointOk p := fun p hp => h.points p (by simp [hp])
+  simp only [toPbNode, mapRes_toPb _ hp1, mapRes_toPb _ hp2, pbNodeOf]
+
+theorem pbNodeOf_ok (n : Node) (h : NodeOk n) : PbNodeOk (pbNodeOf n) := by
+  refine ⟨h.id, h.type, h.parent, toInt32_int32 _, h.lens, ?_⟩
+  intro x hx
+  simp only [pbNodeOf, List.mem_append, List.mem_map] at hx
+  rcases hx with ⟨p, hp, rfl⟩ | ⟨p, hp, rfl⟩
+  · exact pbOf_ok p (h.points p (by simp [hp]))
+  · exact pbOf_ok p (h.points p (by simp [hp]))
+
+theorem pbToNode_back (n : Node) (h : NodeOk n) : pbToNode (some (pbNodeOf n)) = .ok n := by
+  have hp1 : ∀ p ∈ n.points, PointOk p := fun p hp => h.points p (by simp [hp])
+  have hp2 : ∀ p ∈ n.edgePoints, PointOk p := fun p hp => h.points p (by simp [hp])
+  simp only [pbToNode, pbNodeOf, mapRes_back _ hp1, mapRes_back _ hp2, toInt32_hash n.hash h.hash]
+
+/-- **C12 node-list round trip through the wire bytes** (`Nodes` / `NodesRequest`, the reply to a children or node
+query): any list of well-formed nodes whose single encodings stay below 2^64 bytes is decoded from its own bytes to
+the same list in the same order, with or without the error field being read. -/
+theorem c12_nodes_bytes_roundtrip (withErr : Bool) (ns : List Node) (h : ∀ n ∈ ns, NodeOk n)
+    (hsz : ∀ n ∈ ns, (encNode (pbNodeOf n)).length < 18446744073709551616) :
+    ∃ qs, mapRes toPbNode ns = .ok qs ∧ pbDecodeNodes withErr (encNodes qs) = .ok ns := by
+  refine ⟨ns.map pbNodeOf, mapRes_ok toPbNode pbNodeOf ns (fun n hn => toPbNode_ok n (h n hn)), ?_⟩
+  unfold pbDecodeNodes
+  rw [nodes_bytes withErr (ns.map pbNodeOf) (by
+    intro q hq
+    simp only [List.mem_map] at hq
+    obtain ⟨n, hn, rfl⟩ := hq
+    exact ⟨pbNodeOf_ok n (h n hn), hsz n hn⟩)]
+  simp only [ne_eq, not_true_eq_false, and_false, if_false]
+  have : mapRes (fun n => pbToNode (some n)) (ns.map pbNodeOf) = .ok ns := by
+    clear hsz
+    induction ns with
+    | nil => rfl
+    | cons n ns ih =>
+      simp only [List.map_cons, mapRes, pbToNode_back n (h n (by simp)), ih (fun x hx => h x (by simp [hx]))]
+  exact this
+
 /-- the hypotheses are satisfiable by an ordinary point (non-vacuity) -/
 example : PointOk { type := [0x76], key := [0x30], value := 0x3ff0000000000000, text := [], sec := 1700000000,
                     nsec := 5, tomb := 1, origin := [], data := [1, 2] } := by
